@@ -178,8 +178,8 @@ impl Check for C08 {
 	fn runs(&self, tier: Tier) -> u64 {
 		let slots = (sut::methods().len() + crate::ieng::indicators().len()) as u64;
 		match tier {
-			Tier::Quick => slots * 120,
-			Tier::Thorough => slots * 2_500,
+			Tier::Quick => slots * 500,
+			Tier::Thorough => slots * 6_000,
 		}
 	}
 	fn generate(&self, root: &Rng, i: u64, tier: Tier) -> Case {
